@@ -262,41 +262,8 @@ theorem call_total_of_obligations (nfc : String → Bool) (spec : Spec) (tf : Ty
       (∀ as rt, TypeArgsOK nfc spec as → tf as = .ok rt → rt.isDyn = false → rf (Value.unknown rt) ≠ none))
     (args : List Value) (hargs : ∀ a ∈ args, a.WF nfc = true) :
     (∀ w, (call spec tf impl args).1 ≠ .panic w) ∧
-    (∀ w, (call spec tf impl args).1 ≠ .err (.panicError w)) := by
-  have hmw : ∀ v ∈ args, v.v.markerWF = true := fun v hv => markerWF_of_WF (hargs v hv)
-  have hti := typeArgs_eq_implArgs spec args hmw
-  obtain ⟨k, o, ho, hk⟩ := callUnrefined_case' spec tf impl args
-  constructor
-  · intro w hw
-    obtain ⟨rf, pre, hr, hpre, hty, hn⟩ := (C10.go_panic_iff spec tf impl args).mp ⟨w, hw⟩
-    obtain ⟨h1, h2⟩ := href rf hr
-    rw [ho] at hpre
-    cases hk with
-    | dynShort k' u hc hat hwu =>
-      simp only [Out.ok.injEq] at hpre; subst hpre
-      rw [not_typed_of_unknown_dyn hwu] at hty; cases hty
-    | unkShort rt u hc hap ht hb hwu =>
-      simp only [Out.ok.injEq] at hpre; subst hpre
-      obtain ⟨a, b, c, _⟩ := withUnhandled_unknown hwu
-      rw [b] at hn
-      refine h2 _ rt (typeArgsOK_of_call hargs hc hap) ht ?_ hn
-      unfold typed at hty
-      rw [c, a] at hty
-      simpa using hty
-    | value rt v u hc hap ht hnb hi hcf hwu =>
-      simp only [Out.ok.injEq] at hpre; subst hpre
-      rw [hwu.2.1] at hn
-      exact h1 _ rt v (implArgsOK_of_call hargs hc hap hnb) (hti ▸ ht) hi hn
-    | _ => simp at hpre
-  · intro w
-    rw [call_eq_finish, Ne, finish_err_iff, ho]
-    cases hk with
-    | typePanic w' hc hap h => exact absurd h (htf _ w' (typeArgsOK_of_call hargs hc hap))
-    | implPanic rt w' hc hap ht hnb h =>
-      exact absurd h (himpl _ rt w' (implArgsOK_of_call hargs hc hap hnb) (hti ▸ ht))
-    | nonconforming rt v w' hc hap ht hnb hi hn =>
-      exact absurd (hconf _ rt v (implArgsOK_of_call hargs hc hap hnb) (hti ▸ ht) hi) hn
-    | _ => simp
+    (∀ w, (call spec tf impl args).1 ≠ .err (.panicError w)) :=
+  Fn.call_total_of_obligations nfc spec tf impl htf himpl hconf href args hargs
 
 section PerFunction
 open Stdlib
